@@ -13,7 +13,7 @@ MODES = {
 }
 DEFAULT_FEATS = ["adhoccounting", "variablelist", "frontend"]
 FEATSETS = {"c_n": [], "c_pm": ["adhoccounting", "adhoccountmodels"]}
-BOUNDS = "diagrams over 4 variables, op sequences of length <= 20 (+6 on the rebuilt store, + a restrict audit of every handle); ADFs with <= 4 statements (C04: 2..6 statements, call histories of length 2-3 on one object; C10: 2..4 statements, labels from a fixed pool, 3 sort modes, 4 reuse-after-sort histories; C11 delivery-order oracle: 6 statements) and formulas of depth <= 3; nogoods over 4 positions; interpretation vectors of length <= 5"
+BOUNDS = "diagrams over 4 variables, op sequences of length <= 20 (+6 on the rebuilt store, + a restrict audit of every handle); ADFs with <= 4 statements (persistence mode: every other ADF has 4..6 statements and one if-then-else shaped acceptance condition over disjoint statement groups of different size, 4 seeds x 1000 ADFs; C04: 2..6 statements, call histories of length 2-3 on one object; C10: 2..4 statements, labels from a fixed pool, 3 sort modes, 4 reuse-after-sort histories; C11 delivery-order oracle: 6 statements) and formulas of depth <= 3; nogoods over 4 positions; interpretation vectors of length <= 5"
 _cache = {}
 
 
@@ -50,7 +50,7 @@ def run_modes(repo, modes, seed, budget=300, timeout=180, want=None):
             notes.append(f"replay harness does not build against this tree ({cfg or 'default features'}): " + err[-300:])
             continue
         # the oracles are cheap (bdd: 0.1 s per 6000 rounds, adf: 0.4 s per 300 ADFs): several seeds, many rounds
-        seeds, bud = ((range(seed, seed + 8), max(budget, 3000)) if m in ("bdd", "c04") else (range(seed, seed + 4), max(budget, 1500)) if m == "c10" else (range(seed, seed + 4), max(budget, 1000)) if m == "adf" else ((seed, seed + 1), budget))
+        seeds, bud = ((range(seed, seed + 8), max(budget, 3000)) if m in ("bdd", "c04") else (range(seed, seed + 4), max(budget, 1500)) if m == "c10" else (range(seed, seed + 4), max(budget, 1000)) if m == "adf" else (range(seed, seed + 4), max(budget, 1000)) if m == "persist" else ((seed, seed + 1), budget))
         for s in seeds:
             key = (repo, cfg, m, s, bud)
             if key not in _cache:
